@@ -82,6 +82,10 @@ func fnExprJS(e *sx) string {
 		return "(delete " + a[0].name + ")"
 	case "dlx":
 		return "(delete (" + fnExprJS(a[0]) + "))"
+	case "pro":
+		return "Object.getPrototypeOf(" + fnExprJS(a[0]) + ")"
+	case "rgx":
+		return "/x/"
 	case "cnd":
 		return "(" + fnExprJS(a[0]) + " ? " + fnExprJS(a[1]) + " : " + fnExprJS(a[2]) + ")"
 	case "dle":
